@@ -904,21 +904,30 @@ func (e *Exec) mutate(p *Pending, class string, args []string) (tx *pb.Transacti
 			}
 		}
 		expect = "reject"
-	case "fee": // the `$` output pays less than the gas of the declared limits; the change grows so that sums still match
-		if p.FeeIdx < 0 || p.ChgIdx < 0 {
+	case "fee": // the `$` output pays less than the gas of the declared limits; the initiator's change grows (or, if the fee
+		// inputs left no change, a new output to the initiator takes the difference) so that sums still match
+		if p.FeeIdx < 0 {
 			return nil, "n/a"
 		}
 		tx.TxOutputs[p.FeeIdx].Amount = big.NewInt(p.Gas - 1).Bytes()
-		chg := new(big.Int).SetBytes(tx.TxOutputs[p.ChgIdx].Amount)
-		tx.TxOutputs[p.ChgIdx].Amount = chg.Add(chg, big.NewInt(1)).Bytes()
+		if p.ChgIdx >= 0 {
+			chg := new(big.Int).SetBytes(tx.TxOutputs[p.ChgIdx].Amount)
+			tx.TxOutputs[p.ChgIdx].Amount = chg.Add(chg, big.NewInt(1)).Bytes()
+		} else {
+			tx.TxOutputs = append(tx.TxOutputs, &protos.TxOutput{ToAddr: []byte(w.users[0].Address), Amount: big.NewInt(1).Bytes()})
+		}
 		expect = "reject"
-	case "nofee": // no `$` output at all
-		if p.FeeIdx < 0 || p.ChgIdx < 0 {
+	case "nofee": // no `$` output at all: what it paid goes back to the initiator
+		if p.FeeIdx < 0 {
 			return nil, "n/a"
 		}
-		chg := new(big.Int).SetBytes(tx.TxOutputs[p.ChgIdx].Amount)
-		tx.TxOutputs[p.ChgIdx].Amount = chg.Add(chg, big.NewInt(p.Gas)).Bytes()
-		tx.TxOutputs = append(tx.TxOutputs[:p.FeeIdx:p.FeeIdx], tx.TxOutputs[p.FeeIdx+1:]...)
+		if p.ChgIdx >= 0 {
+			chg := new(big.Int).SetBytes(tx.TxOutputs[p.ChgIdx].Amount)
+			tx.TxOutputs[p.ChgIdx].Amount = chg.Add(chg, big.NewInt(p.Gas)).Bytes()
+			tx.TxOutputs = append(tx.TxOutputs[:p.FeeIdx:p.FeeIdx], tx.TxOutputs[p.FeeIdx+1:]...)
+		} else {
+			tx.TxOutputs[p.FeeIdx].ToAddr = []byte(w.users[0].Address)
+		}
 		expect = "reject"
 	case "xroute": // the contract's real output number j goes to another address, same amount
 		j, ok := idxArg(args, 0)
@@ -1276,7 +1285,7 @@ func (e *Exec) commit(p *Pending, id int) string {
 	}
 	w.txno[string(p.Tx.Txid)] = id
 	e.checkDelta(p, p.Tx, before, after, "commit")
-	e.sweep(p.Tx)
+	e.sweep(p)
 	return "accept"
 }
 
@@ -1291,32 +1300,37 @@ func (e *Exec) coverShape(p *Pending) string {
 
 // sweep: every output of an accepted transaction that went to the paying account (change of a contract transfer, a
 // payment to the account itself) is spent at once by a plain transfer of that account to a sink address, so that the
-// account's unspent outputs stay all of the same worth (see newWorld). That the outputs the commit created can be
-// spent is part of "committing it changes exactly the outputs of that write set".
-func (e *Exec) sweep(tx *pb.Transaction) {
+// account's unspent outputs stay all of the same worth (see newWorld); likewise every payment of the contract to the
+// initiator, so that the inputs selected for the fee stay large and their change cannot be worth what a small contract
+// output is worth (see unlessStillPaid). That the outputs the commit created can be spent is part of "committing it
+// changes exactly the outputs of that write set".
+func (e *Exec) sweep(p *Pending) {
 	w := e.w
-	var ins []chainlib.Utxo
-	total := big.NewInt(0)
-	for i, o := range tx.TxOutputs {
-		if string(o.ToAddr) == w.bank.Address {
-			a := new(big.Int).SetBytes(o.Amount)
-			ins = append(ins, chainlib.Utxo{Addr: w.bank.Address, RefTx: tx.Txid, Offset: int32(i), Amount: a})
-			total.Add(total, a)
+	tx := p.Tx
+	for _, owner := range []*xvlib.Account{w.bank, w.users[0]} {
+		var ins []chainlib.Utxo
+		total := big.NewInt(0)
+		for i, o := range tx.TxOutputs {
+			if string(o.ToAddr) == owner.Address && (owner == w.bank || i < p.NConOut) {
+				a := new(big.Int).SetBytes(o.Amount)
+				ins = append(ins, chainlib.Utxo{Addr: owner.Address, RefTx: tx.Txid, Offset: int32(i), Amount: a})
+				total.Add(total, a)
+			}
 		}
-	}
-	if len(ins) == 0 {
-		return
-	}
-	st, err := chainlib.TransferTx(w.bank, ins, []chainlib.Out{{To: w.sink, Amount: total}}, "sweep")
-	if err == nil {
-		if ok, verr := w.n.S.VerifyTx(st); verr != nil || !ok {
-			err = fmt.Errorf("verify: %v", verr)
-		} else if derr := w.n.S.DoTx(st); derr != nil {
-			err = fmt.Errorf("dotx: %v", derr)
+		if len(ins) == 0 {
+			continue
 		}
-	}
-	if err != nil {
-		e.violate("contract-output-not-spendable", fmt.Sprintf("the outputs the accepted transaction created for the paying account cannot be spent by it: %v", err))
+		st, err := chainlib.TransferTx(owner, ins, []chainlib.Out{{To: w.sink, Amount: total}}, "sweep")
+		if err == nil {
+			if ok, verr := w.n.S.VerifyTx(st); verr != nil || !ok {
+				err = fmt.Errorf("verify: %v", verr)
+			} else if derr := w.n.S.DoTx(st); derr != nil {
+				err = fmt.Errorf("dotx: %v", derr)
+			}
+		}
+		if err != nil {
+			e.violate("contract-output-not-spendable", fmt.Sprintf("the outputs the accepted transaction created for %s cannot be spent by their owner: %v", owner.Address, err))
+		}
 	}
 }
 
